@@ -4,7 +4,8 @@ From NDN Require Import Proofs.LvsExamples.
 From NDN Require Import Base.Prelude Base.Text Model.LvsAst Model.LvsChecker Model.LvsCompiler Spec.LvsSem Spec.LvsTree.
 From NDN Require Import Proofs.LvsMachine Proofs.LvsTreePaths Proofs.LvsCheckerThms Proofs.LvsSanity Proofs.LvsConstsAgree
   Proofs.LvsFlatten Proofs.LvsGenTree Proofs.LvsCompileTree Proofs.LvsCompileThms Proofs.LvsTopOrder Proofs.LvsSortRules
-  Proofs.LvsNumbering Proofs.LvsReplicate Proofs.LvsCompileOk Proofs.LvsCompileStatic Proofs.LvsCompileAccepts.
+  Proofs.LvsNumbering Proofs.LvsReplicate Proofs.LvsCompileOk Proofs.LvsCompileStatic Proofs.LvsCompileAccepts
+  Proofs.LvsCompileIff Proofs.LvsSignGraph Proofs.LvsSignCycle.
 From NDN Require Import Spec.LvsChains.
 Local Open Scope N_scope.
 
@@ -35,6 +36,15 @@ Theorem C13_loader_iff m : sane m ->
     (forall e, sanity_check (sanity_fuel m) m = Err e -> ~ sign_graph_passes m a).
 Proof. exact (sanity_check_sane m). Qed.
 Print Assumptions C13_loader_iff.
+
+(* the verdict in full, for models whose node ids are their indices (every model compile produces; a corrupted model may carry
+   broken ids on nodes the loader never visits): accepted iff the signing relation between reachable nodes has no cycle
+   ([sign_acyclic]: there is a ranking), and the only other outcome is the schema error raised by compiler.top_order *)
+Theorem C13_loader_verdict m : sane m -> ids_ok m ->
+  ((exists r, sanity_check (sanity_fuel m) m = Ok r) <-> sign_acyclic m) /\
+  (forall e, sanity_check (sanity_fuel m) m = Err e -> e = ESemantic).
+Proof. exact (loader_verdict m). Qed.
+Print Assumptions C13_loader_verdict.
 
 (* the executable rule set used by the harness oracle implies the declarative one *)
 Theorem C13_saneb_sound m : saneb m = true -> sane m.
@@ -113,6 +123,42 @@ Qed.
 Print Assumptions C13_compile_accepts.
 Example C13_compile_accepts_example : static_ok ex_schema = true /\ schema_wf ex_schema = true /\ compile ex_schema = Ok ex_model.
 Proof. exact (conj ex_static (conj ex_wf ex_compile)). Qed.
+
+(* ... and only then: compile accepts a schema exactly when it has none of the documented static errors
+   ([sign_plain]: signer names as the lexer produces them, no '#' after the first character) *)
+Theorem C13_compile_iff S : schema_wf S = true -> sign_plain S -> ((exists m, compile S = Ok m) <-> static_ok S = true).
+Proof. exact (compile_iff S). Qed.
+Print Assumptions C13_compile_iff.
+Example C13_compile_iff_example : schema_wf ex_schema = true /\ sign_plain ex_schema /\ static_ok ex_schema = true /\ static_ok ex_undefined = false.
+Proof. exact (conj ex_wf (conj ex_sign_plain (conj ex_static eq_refl))). Qed.
+
+(* building a Checker from the compiled schema: accepted iff no name pattern (tree node) is, directly or transitively, its own
+   signer; otherwise SemanticError -- never the model error, never a crash *)
+Theorem C13_checker_verdict S m : static_ok S = true -> schema_wf S = true -> compile S = Ok m ->
+  ((exists r, sanity_check (sanity_fuel m) m = Ok r) <-> sign_acyclic m) /\
+  (forall e, sanity_check (sanity_fuel m) m = Err e -> e = ESemantic).
+Proof. exact (checker_verdict S m). Qed.
+Print Assumptions C13_checker_verdict.
+(* both outcomes occur: the example schema is accepted (hence acyclic), "#a: /a <= #b, #b: /b <= #a" compiles and is refused *)
+Example C13_checker_verdict_example :
+  sign_acyclic ex_model /\ ~ sign_acyclic ex_signcycle_model /\
+  sanity_check (sanity_fuel ex_signcycle_model) ex_signcycle_model = Err ESemantic.
+Proof.
+  exact (conj (proj1 (proj1 (checker_verdict ex_schema ex_model ex_static ex_wf ex_compile)) ex_loader_accepts)
+        (match ex_signcycle_facts with conj Hs (conj Hw (conj Hc He)) =>
+           conj (fun Hac => match proj2 (proj1 (checker_verdict ex_signcycle ex_signcycle_model Hs Hw Hc)) Hac with
+                            | ex_intro _ r Hr => Bool.diff_false_true (f_equal (fun x => match x with Ok _ => false | Err _ => true end) (eq_trans (eq_sym Hr) He)) end)
+                He end)).
+Qed.
+
+(* in particular rules that sign one another in a circle (a <= ... <= a, [sign_walk] on the text) are refused *)
+Theorem C13_checker_rejects_cyclic_signing S m a cyc : static_ok S = true -> schema_wf S = true -> compile S = Ok m ->
+  sign_walk S a a cyc -> sanity_check (sanity_fuel m) m = Err ESemantic.
+Proof. exact (checker_rejects_cyclic_signing S m). Qed.
+Print Assumptions C13_checker_rejects_cyclic_signing.
+Example C13_checker_rejects_cyclic_signing_example :
+  static_ok ex_signcycle = true /\ schema_wf ex_signcycle = true /\ compile ex_signcycle = Ok ex_signcycle_model /\ sign_walk ex_signcycle i_a i_a [i_b].
+Proof. exact (match ex_signcycle_facts with conj Hs (conj Hw (conj Hc _)) => conj Hs (conj Hw (conj Hc ex_signcycle_walk)) end). Qed.
 
 (* T1 tie re-established on this run *)
 Theorem C13_tie_version :
